@@ -172,6 +172,120 @@ func c14Scenario(id string, callers int, reqs []int, shape int, startWithVal boo
 	}}
 }
 
+// callers that make their first YieldFrom BEFORE the target is started (more of them than the request channel holds):
+// Start returns, IsStarted becomes true, every request is served
+func c14EarlyCallers(id string, callers int, seed int64) core.Scenario {
+	return core.Scenario{ID: id, Class: "Cor.early-callers", Run: func(c *core.Ctx) {
+		c.Eval(int64(callers))
+		c.Distinct(id)
+		var target *fpgo.CorDef[int64]
+		var tlog []int64
+		tdone := make(chan struct{})
+		target = fpgo.CorNewGenerics[int64](func() {
+			defer close(tdone)
+			for k := 0; k < callers; k++ {
+				tlog = append(tlog, target.YieldRef(int64(1000+k)))
+			}
+		})
+		got := make([]int64, callers)
+		var wg sync.WaitGroup
+		for ci := 0; ci < callers; ci++ {
+			ci := ci
+			wg.Add(1)
+			var co *fpgo.CorDef[int64]
+			co = fpgo.CorNewGenerics[int64](func() {
+				defer wg.Done()
+				got[ci] = co.YieldFrom(target, int64(ci+1))
+			})
+			co.Start()
+		}
+		time.Sleep(time.Duration(500+seed%5*300) * time.Microsecond) // the callers queue up (5 fit, the others wait for room)
+		started := make(chan struct{})
+		go func() { defer close(started); target.Start() }()
+		all := make(chan struct{})
+		go func() { <-started; wg.Wait(); <-tdone; close(all) }()
+		v, dump := core.AwaitOrStuck(all, 2*time.Second, 60*time.Second, director.Get().Total)
+		rep := map[string]any{"scenario": id, "callers_before_start": callers}
+		if v == "stuck" {
+			c.Violationf("early-callers:stuck", map[string]any{"scenario": id, "goroutines": core.RepoGoroutineSummary(dump)}, "%d callers made their first YieldFrom before the target was started; Start() / the requests never complete (IsStarted=%v)", callers, target.IsStarted())
+			return
+		}
+		if v != "done" {
+			c.Inconclusive("watchdog in " + id)
+			return
+		}
+		seenX := map[int64]bool{}
+		for _, x := range tlog {
+			seenX[x] = true
+		}
+		seenY := map[int64]bool{}
+		for _, y := range got {
+			seenY[y] = true
+		}
+		if len(seenX) != callers || len(seenY) != callers || !target.IsStarted() {
+			c.Violationf("early-callers:pairing", rep, "%d early callers: the target saw x values %v, the callers received %v", callers, tlog, got)
+		}
+	}}
+}
+
+// volume: a few callers, hundreds of thousands of requests against an echoing target. Every x the target sees is the x of
+// the request it is answering (each caller's x values arrive in order, none twice, none missing)
+func c14Volume(id string, callers, each int, seed int64) core.Scenario {
+	return core.Scenario{ID: id, Class: "Cor.volume", Run: func(c *core.Ctx) {
+		c.Eval(int64(callers * each))
+		c.Distinct(id)
+		total := callers * each
+		var target *fpgo.CorDef[int64]
+		lastSeen := make([]int64, callers+1)
+		var bad string
+		tdone := make(chan struct{})
+		target = fpgo.CorNewGenerics[int64](func() {
+			defer close(tdone)
+			prev := int64(0)
+			for k := 0; k < total; k++ {
+				x := target.YieldRef(prev) // echo: the answer to request k is the x of request k-1
+				ci, seq := x>>32, x&0xffffffff
+				if ci < 1 || int(ci) > callers || seq != lastSeen[ci]+1 {
+					if bad == "" {
+						bad = fmt.Sprintf("the target's YieldRef #%d returned x=(caller %d, #%d); the previous request of that caller was #%d", k, ci, seq, lastSeen[ci%int64(callers+1)])
+					}
+				} else {
+					lastSeen[ci] = seq
+				}
+				prev = x
+			}
+		})
+		target.Start()
+		var wg sync.WaitGroup
+		for ci := 1; ci <= callers; ci++ {
+			ci := ci
+			wg.Add(1)
+			var co *fpgo.CorDef[int64]
+			co = fpgo.CorNewGenerics[int64](func() {
+				defer wg.Done()
+				for i := 1; i <= each; i++ {
+					co.YieldFrom(target, int64(ci)<<32|int64(i))
+				}
+			})
+			co.Start()
+		}
+		all := make(chan struct{})
+		go func() { wg.Wait(); <-tdone; close(all) }()
+		v, dump := core.AwaitOrStuck(all, 3*time.Second, 120*time.Second, director.Get().Total)
+		if v == "stuck" {
+			c.Violationf("pairing:stuck", map[string]any{"scenario": id, "goroutines": core.RepoGoroutineSummary(dump)}, "%d callers x %d requests against an echoing target never finished", callers, each)
+			return
+		}
+		if v != "done" {
+			c.Inconclusive("watchdog in " + id)
+			return
+		}
+		if bad != "" {
+			c.Violationf("pairing:x-of-another-request", map[string]any{"scenario": id, "callers": callers, "requests_each": each}, "%s", bad)
+		}
+	}}
+}
+
 func c14MiscScenario(id string, seed int64) core.Scenario {
 	return core.Scenario{ID: id, Class: "Cor.misc", Run: func(c *core.Ctx) {
 		c.Eval(4)
@@ -345,6 +459,15 @@ func c14Scenarios(c *core.Ctx, race bool) []core.Scenario {
 		}
 		out = append(out, c14Scenario(fmt.Sprintf("full-channel-%d-c%d-race%v", i, callers, race), callers, reqs, i%3, false, c.Seed*2+int64(2*i)))
 	}
+	for i, n := range []int{1, 5, 6, 7, 8, 8, 12} {
+		out = append(out, c14EarlyCallers(fmt.Sprintf("early-callers-%d-n%d-race%v", i, n, race), n, c.Seed+int64(i)))
+	}
+	for i := 0; i < c.Pick(4, 12); i++ {
+		if race && i > 0 {
+			break
+		}
+		out = append(out, c14Volume(fmt.Sprintf("volume-%d-race%v", i, race), 2+i%3, c.Pick(150000, 400000), c.Seed+int64(i)))
+	}
 	// single caller, long (well beyond the channel buffer of 5)
 	for _, k := range []int{1, 5, 6, 7, 50} {
 		out = append(out, c14Scenario(fmt.Sprintf("single-%d-race%v", k, race), 1, []int{k}, 0, false, c.Seed+int64(k)))
@@ -360,7 +483,7 @@ func init() {
 		Meta: func(c *core.Ctx) core.Meta {
 			return core.Meta{
 				Level:       "exploration",
-				Rule:        "topologies of 1..8 caller coroutines with 1..12 requests each (more than the channel buffer of 5) against one target that serves exactly the total, three generator shapes (fixed sequence, echo of the previous x, running accumulate), with and without StartWithVal, with the target held back until 6..16 callers have filled its request channel of 5 (the others block in the hand-over), PRNG yields at cor.YieldRef.taken / cor.YieldFrom.sent / cor.doCloseSafe.checked; x = (caller, i) unique and y_k unique; goroutine-local logs joined by a WaitGroup the effects signal; oracle: every x exactly once at the target, the caller of the request taken as step k received exactly y_k, per-caller positions increase, counts match; StartWithVal value reaches the first YieldRef, DoNotation / YieldFromIO values and single IO effect, YieldFromIO of an IO whose own effect calls YieldFrom through the evaluating coroutine (inline and on a Handler), IsStarted/IsDone inside and after the effect; Start()/StartWithVal() followed at once by further Start() calls (400 rounds: one instance of the effect, answers in order); stuck detector; repeated under -race (deciding for cor.go). distinct_nontrivial = distinct topologies + hook-trace signatures",
+				Rule:        "topologies of 1..8 caller coroutines with 1..12 requests each (more than the channel buffer of 5) against one target that serves exactly the total, three generator shapes (fixed sequence, echo of the previous x, running accumulate), with and without StartWithVal, with the target held back until 6..16 callers have filled its request channel of 5 (the others block in the hand-over), PRNG yields at cor.YieldRef.taken / cor.YieldFrom.sent / cor.doCloseSafe.checked; x = (caller, i) unique and y_k unique; goroutine-local logs joined by a WaitGroup the effects signal; oracle: every x exactly once at the target, the caller of the request taken as step k received exactly y_k, per-caller positions increase, counts match; StartWithVal value reaches the first YieldRef, DoNotation / YieldFromIO values and single IO effect, YieldFromIO of an IO whose own effect calls YieldFrom through the evaluating coroutine (inline and on a Handler), IsStarted/IsDone inside and after the effect; 1..12 callers whose first YieldFrom precedes Start(); volume runs (2..4 callers x 150000 (400000) requests against an echoing target: every x the target sees belongs to the request being answered); Start()/StartWithVal() followed at once by further Start() calls (400 rounds: one instance of the effect, answers in order); stuck detector; repeated under -race (deciding for cor.go). distinct_nontrivial = distinct topologies + hook-trace signatures",
 				Assumptions: []string{"only while the target has YieldRefs left to serve (statement); YieldFrom on a finished target is property C15", "the y of the YieldRef that consumes the StartWithVal value has no recipient by design"},
 			}
 		},
